@@ -3,7 +3,7 @@
    Print Assumptions beneath.  Texts and buffers are lists of bytes ([N]); a
    model function returns (return code, bytes written to the destination). *)
 From UV Require Import Lib.Base Model.Inet Spec.InetSpec Proofs.InetProofs4 Proofs.InetProofs6
-  Proofs.InetProofs6rt Proofs.InetProofs6shape Proofs.InetProofs4c.
+  Proofs.InetProofs6rt Proofs.InetProofs6shape Proofs.InetProofs4c Proofs.InetProofsZone.
 Local Open Scope N_scope.
 
 (* inet_pton4 accepts exactly the dotted-quad grammar (four decimal octets
@@ -128,24 +128,37 @@ Theorem C18_inet_pton_zone :
 Proof. exact uv_inet_pton6_zone. Qed.
 Print Assumptions C18_inet_pton_zone.
 
-(* Full statement (C18_ip6_addr_zone): uv_ip6_addr (a ++ "%" ++ z) yields the
-   address that a alone denotes.  REFUTED on the current code: the address part
-   is cut to 39 characters, "1111:2222:3333:4444:5555:6666:12.2.3.123%lo" is
-   accepted (rc 0) as ...:12.2.3.12. *)
-Theorem C18_ip6_addr_zone_truncation_refuted :
-  exists a z b port,
-    ~ In 0 a /\ ~ In 37 a /\ inet_pton6 a = (0%Z, b) /\
-    exists b', uv_ip6_addr (a ++ 37 :: z) port = (0%Z, (htons port, b')) /\ b' <> b.
-Proof. exact ip6_addr_zone_truncation_refuted. Qed.
-Print Assumptions C18_ip6_addr_zone_truncation_refuted.
-
-(* what does hold: address parts of at most 39 characters *)
-Theorem C18_ip6_addr_zone_partial :
+(* uv_ip6_addr (repaired by /repo commit 4b6f164): for every address text a
+   (no NUL, no '%') and every zone z, uv_ip6_addr (a ++ "%" ++ z) yields exactly
+   what inet_pton6 gives for a alone when |a| <= 45, and UV_EINVAL with a zero
+   address beyond (no valid text is longer than 45 characters) *)
+Theorem C18_ip6_addr_zone :
   forall a z port,
-  ~ In 0 a -> ~ In 37 a -> (length a <= 39)%nat ->
-  uv_ip6_addr (a ++ 37 :: z) port = addr_result (inet_pton6 a) port 16.
-Proof. exact ip6_addr_zone_partial. Qed.
-Print Assumptions C18_ip6_addr_zone_partial.
+  ~ In 0 a -> ~ In 37 a ->
+  uv_ip6_addr (a ++ 37 :: z) port =
+  if (45 <? length a)%nat then (UV_EINVAL, (htons port, repeat 0 16))
+  else addr_result (inet_pton6 a) port 16.
+Proof. exact ip6_addr_zone. Qed.
+Print Assumptions C18_ip6_addr_zone.
+
+Theorem C18_ip6_addr_plain :
+  forall a port,
+  ~ In 0 a -> ~ In 37 a -> uv_ip6_addr a port = addr_result (inet_pton6 a) port 16.
+Proof. exact ip6_addr_plain. Qed.
+Print Assumptions C18_ip6_addr_plain.
+
+(* History (was C18_ip6_addr_zone_truncation_refuted): the code before 4b6f164,
+   kept as uv_ip6_addr_pre_4b6f164, parsed
+   "1111:2222:3333:4444:5555:6666:12.2.3.123%lo" to ...:12.2.3.12 with rc 0; the
+   current model gives ...:12.2.3.123 *)
+Theorem C18_ip6_addr_zone_history :
+  inet_pton6 zone_witness = (0%Z, [17;17;34;34;51;51;68;68;85;85;102;102;12;2;3;123]) /\
+  uv_ip6_addr_pre_4b6f164 (zone_witness ++ 37 :: [108; 111]) 80 =
+    (0%Z, (htons 80, [17;17;34;34;51;51;68;68;85;85;102;102;12;2;3;12])) /\
+  uv_ip6_addr (zone_witness ++ 37 :: [108; 111]) 80 =
+    (0%Z, (htons 80, [17;17;34;34;51;51;68;68;85;85;102;102;12;2;3;123])).
+Proof. exact ip6_addr_zone_history. Qed.
+Print Assumptions C18_ip6_addr_zone_history.
 
 (* the hypotheses are satisfiable / the statements are not vacuous *)
 Example C18_example_pton4 :
